@@ -281,7 +281,11 @@ func (r *runner) call(ctx context.Context) (res []any) {
 		}
 	}()
 	w := r.c.Workers
-	opts := []mr.Option{mr.WithWorkers(w)}
+	opts := []mr.Option{}
+	if w >= 0 {
+		// a negative count means: no WithWorkers option (defaultWorkers)
+		opts = append(opts, mr.WithWorkers(w))
+	}
 	if ctx != nil {
 		opts = append(opts, mr.WithContext(ctx))
 	}
